@@ -138,6 +138,8 @@ func (l *local) Reopen(via string) (res Result) {
 
 func (l *local) Close() {}
 
+var oddDirNames = []string{"Lamp [1]", "a*b", "what?", "back\\slash", "Küche 居間", "{curly}", "dot.dir", " leading blank", "per%cent", "[", "]x[", "tilde~1"}
+
 func scribble(b []byte) {
 	for i := range b {
 		b[i] ^= 0xA5
@@ -1696,8 +1698,16 @@ func main() {
 		r.Count("histories_"+mode, 1)
 		r.Count("histories_exec_"+execMode, 1)
 		r.Count("operations", len(h.Ops))
+		// the storage directory is wherever the application puts it (by default a directory named after the accessory):
+		// names with blanks, brackets, wildcards, a backslash, non-ASCII letters
 		dir := filepath.Join(base, fmt.Sprintf("h%d", i))
+		if odd := oddDirNames[i%(2*len(oddDirNames))%len(oddDirNames)]; i%2 == 1 {
+			dir = filepath.Join(base, fmt.Sprintf("h%d", i), odd)
+			os.MkdirAll(filepath.Dir(dir), 0o755)
+			r.Distinct("storage_directory_name", odd)
+		}
 		fs, broken := run(h, dir, r, strconv.Itoa(i), &segments)
+		os.RemoveAll(filepath.Join(base, fmt.Sprintf("h%d", i)))
 		if broken != "" {
 			if strings.Contains(broken, "brutella/hc") && (strings.Contains(broken, "panic:") || strings.Contains(broken, "fatal error:")) {
 				r.Violation("child:process-crash", "the child process died inside hc: "+broken, h)
